@@ -13,12 +13,65 @@ def path_str(path):
     return "/".join(out)
 
 
-def gen_od(ctx, consts, tag):
+def gen_od(ctx, consts, tag, equiv=True):
     cfg = "CONSTANTS\n" + "\n".join(f"  {k} = {v}" for k, v in consts.items()) + \
-          "\nINIT InitOD\nNEXT NextOD\nINVARIANT EmitOD\nCHECK_DEADLOCK FALSE\n"
-    recs = ctx.tlc_emit("Gen_OnDemand", cfg=cfg, tag=tag, timeout=3000, xmx="12g")
+          "\nINIT InitOD\nNEXT NextOD\nINVARIANT EmitOD\n" + ("INVARIANT ODEquiv\n" if equiv else "") + "CHECK_DEADLOCK FALSE\n"
+    # ODEquiv: the scanner model (spec/SkipScan.tla) against Lookup on every generated case (exit 12 = invariant violated)
+    recs = ctx.tlc_emit("Gen_OnDemand", cfg=cfg, tag=tag, timeout=3000, xmx="12g", ok_exits=(0, 12), extra=["-continue"])
+    if ctx.last_emit["exit"] == 12 or "ODEquiv is violated" in ctx.last_emit["out"]:
+        ctx.add_fail(dict(property=ctx.prop, kind="model", sig="model:SkipScan", shape=dict(kind="model"), build="tlc",
+                          detail="SkipScan!Equiv / InBounds violated on a generated (text, path) case: " + ctx.last_emit["out"][-1500:], case={},
+                          replay=dict(harness="Gen_OnDemand")))
     ctx.log(f"{tag}: {consts}: {len(recs)} (text, path) cases, {sum(1 for r in recs if r['found'])} resolving, in {ctx.tlc_runs[-1]['wall']}s")
     return recs
+
+
+SIG11 = "{123,125,91,93,44,58,34,92,97,49,32}"
+SIG9 = "{123,125,91,93,44,58,34,97,49}"
+SIG10E = "{123,125,91,93,44,58,34,92,97,32}"
+
+
+def mc_skipscan(ctx, builds):
+    """spec/SkipScan.tla (I-model of GetOnDemand and its primitives): InBounds and Equiv for every byte string up to a bound
+    and for every viable prefix up to a larger bound; then the model's predictions for every (string, path) are compared
+    with the real scanner (DRIFT, not a verdict)."""
+    q = ctx.quick
+    runs = [("all", SIG11, 4 if q else 5, "FALSE"), ("pruned", SIG9, 7 if q else 8, "TRUE"), ("prunedesc", SIG10E, 6 if q else 8, "TRUE")]
+    tmpl = "CONSTANTS\n  Sigma = %s\n  MaxLen = %d\n  Prune = %s\nINIT Init\nNEXT Next\nINVARIANT Inv\n%sCHECK_DEADLOCK FALSE\n"
+
+    def one(r):
+        name, sig, ml, pr = r
+        return name, ctx.tlc("MC_SkipScan", cfg=tmpl % (sig, ml, pr, ""), tag=f"MC_SkipScan_{name}", timeout=3000, xmx="10g", workers=5)
+    bad = False
+    for name, r in parallel(one, runs, workers=3):
+        v = "is violated" in r["out"] or r["exit"] != 0
+        bad = bad or v
+        ctx.log(f"MC_SkipScan[{name}]: {r['distinct']} byte strings x 10 paths, InBounds/Equiv {'VIOLATED' if v else 'hold'} (exit {r['exit']})")
+        if v:
+            ctx.add_fail(dict(property=ctx.prop, kind="model", sig="model:SkipScan", shape=dict(kind="model"), build="tlc",
+                              detail=f"MC_SkipScan[{name}]: " + r["out"][-1500:], case={}, replay=dict(harness="MC_SkipScan")))
+    # drift: predictions for all strings <= 4 over 11 symbols x 10 paths
+    recs = ctx.tlc_emit("MC_SkipScan", cfg=tmpl % (SIG11, 4, "FALSE", "INVARIANT EmitOD\n"), tag="MC_SkipScan_emit", timeout=1500, xmx="10g", workers=1)
+    rows = [[str(i), hexs(r["t"]), path_str(r["path"]), "0", "-"] for i, r in enumerate(recs)]
+    fails, digs = replay_od(ctx, "c11", rows, builds, [0], want_digest=True, name="skipscan")
+    drift = {}
+    for b, lines in digs.items():
+        for l in lines:
+            a = l.split("\t")
+            if len(a) < 5:
+                continue
+            r = recs[int(a[0])]
+            err = int(a[2])
+            cls = 100 if err in (4, 5, 6) else err
+            if (cls != r["err"]):
+                drift["err"] = drift.get("err", 0) + 1
+                if len(drift.setdefault("examples", [])) < 5:
+                    drift["examples"].append(dict(text=bytes(r["t"]).decode("latin1"), path=path_str(r["path"]), model=r["err"], code=err, build=b))
+            elif err == 0 and (int(a[3]) != r["start"] or int(a[4]) != r["len"]):
+                drift["slice"] = drift.get("slice", 0) + 1
+    ctx.extra["skipscan_drift"] = drift
+    ctx.log(f"SkipScan vs code: {len(rows)} (byte string, path) cases x {len(builds)} builds; drift (model prediction vs code, not a verdict): {drift or 'none'}")
+    return bad
 
 
 def rows_c10(recs):
